@@ -13,7 +13,7 @@
       his|k|blob_1..blob_k|meta_1..meta_k|p|part_1..part_p|s|slide_1..slide_s|op...
     where a blob field is the byte string itself, and the other fields are texts:
       D     = q<num>/<den> | nan | inf | non
-      meta  = U | M;<format or ~>;w;h;n | M;<format or ~>;w;h;t;D;D
+      meta  = U | M;<format or ~>;w;h;X;n | M;<format or ~>;w;h;X;t;D;D   (X = 1 when tag 282 was read)
       part  = name;content type;blob index or ~;cls;rel
       slide = rid=target;rid=target;...    (empty target: not an image relationship)
       op    = a | r | o;s;k | i;s;blob;P;cx;cy | i;s;blob;H;vw;vh | i;s;blob;R
@@ -68,21 +68,24 @@ Definition parse_dpival (s : str) : option dpival :=
        | _ => None
        end.
 
+Definition parse_bool (s : str) : option bool :=
+  match s with [49%N] => Some true | [48%N] => Some false | _ => None end.
+
 Definition parse_fmt (s : str) : option str :=
   match s with [126%N] => None | _ => Some s end.
 
 Definition parse_meta (s : str) : option pilmeta :=
   match split_on c_semi s with
   | [[85%N]] => Some Unidentified
-  | [[77%N]; f; w; h; [110%N]] =>
-      match parse_Z w, parse_Z h with
-      | Some w', Some h' => Some (Meta (parse_fmt f) w' h' PNoTuple)
-      | _, _ => None
+  | [[77%N]; f; w; h; xr; [110%N]] =>
+      match parse_Z w, parse_Z h, parse_bool xr with
+      | Some w', Some h', Some xb => Some (Meta (parse_fmt f) w' h' PNoTuple xb)
+      | _, _, _ => None
       end
-  | [[77%N]; f; w; h; [116%N]; d1; d2] =>
-      match parse_Z w, parse_Z h, parse_dpival d1, parse_dpival d2 with
-      | Some w', Some h', Some x, Some y => Some (Meta (parse_fmt f) w' h' (PTuple x y))
-      | _, _, _, _ => None
+  | [[77%N]; f; w; h; xr; [116%N]; d1; d2] =>
+      match parse_Z w, parse_Z h, parse_dpival d1, parse_dpival d2, parse_bool xr with
+      | Some w', Some h', Some x, Some y, Some xb => Some (Meta (parse_fmt f) w' h' (PTuple x y) xb)
+      | _, _, _, _, _ => None
       end
   | _ => None
   end.
@@ -107,9 +110,6 @@ Fixpoint parse_all {A} (f : str -> option A) (l : list str) : option (list A) :=
               | _, _ => None
               end
   end.
-
-Definition parse_bool (s : str) : option bool :=
-  match s with [49%N] => Some true | [48%N] => Some false | _ => None end.
 
 Definition parse_part (imgs : list image) (s : str) : option part :=
   match split_on c_semi s with
